@@ -56,7 +56,7 @@ MCInit ==
 
 OpsFor(c) ==
   LET mine == {x \in DOMAIN hnd : hnd[x].owner = c}
-      msgOps == OpSet \cap {"send", "call"}
+      msgOps == OpSet \cap {"send", "call", "force_send"}
       plain  == OpSet \cap {"ping", "stop", "halt", "try_stop", "try_halt", "restart", "await", "await_ref", "stopped",
                             "running", "drop", "join", "consume", "consume_sync"}
       conv   == OpSet \cap {"clone", "downgrade", "sender", "caller", "weak_sender", "weak_caller", "to_addr", "upgrade", "detach"}
@@ -246,6 +246,7 @@ IK(k1, k2, k3) == [c \in Client |-> [h |-> IF c = "c1" THEN "h1" ELSE IF c = "c2
                                      kind |-> IF c = "c1" THEN k1 ELSE IF c = "c2" THEN k2 ELSE k3]]
 InitKindsSC == IK("sender", "caller", "addr")
 InitKindsWeak == IK("wsender", "wcaller", "addr")
+InitKindsWA == IK("wsender", "addr", "wcaller")      \* with two clients: one weak sender, one strong address
 InitKindsOwn == IK("owning", "addr", "waddr")
 InitKindsAW == IK("addr", "waddr", "caller")
 InitKindsCaller == IK("caller", "waddr", "wsender")
